@@ -6,8 +6,7 @@ sys.path.insert(0, ROOT)
 from checks_config import CHECKS
 from manifest_text import TEXT, NOT_APPLICABLE
 
-BASELINE_OFF = ("for m in . api types x/data x/ecocredit x/intertx; do (cd /repo/$m && GOFLAGS=-mod=mod go test -json -vet=off -count=1 "
-                "-timeout 25m ./...); done")
+BASELINE_OFF = json.load(open("/root/.vp/BASELINE.json"))["cmd"]  # the pinned suite's own command; no -tags verif => guard off
 
 props = [json.loads(l)["id"] for l in open(os.path.join(ROOT, "properties.jsonl"))]
 checks = []
